@@ -118,6 +118,14 @@ theorem src_getAliveShardsForWAF_expected : src_getAliveShardsForWAF = "{ c.mu.R
 
 theorem src_getAliveShardsForHardWrite_expected : src_getAliveShardsForHardWrite = "{ aliveShardIdxes := make([]int, 0, len(sgi.Shards)) for i := range sgi.Shards { aliveShardIdxes = append(aliveShardIdxes, i) } return aliveShardIdxes }" := by rfl
 
+theorem src_UnmarshalShardKeyByField_expected : src_UnmarshalShardKeyByField = "{ r.ShardKey = append(r.ShardKey[:0], r.Name...) var find bool for i := range shardKeys { find = false for j := range r.Tags { if shardKeys[i] == r.Tags[j].Key { r.appendShardKey(j) find = true break } } if !find { for k := range r.Fields { if shardKeys[i] == r.Fields[k].Key { r.appendShardKeyWithField(k) find = true break } } } if !find { return ErrPointShouldHaveAllShardKey } } return nil }" := by rfl
+
+theorem src_appendShardKeyWithField_expected : src_appendShardKeyWithField = "{ r.ShardKey = append(r.ShardKey, \",\"...) r.ShardKey = append(r.ShardKey, r.Fields[idx].Key...) r.ShardKey = append(r.ShardKey, \"=\"...) r.ShardKey = append(r.ShardKey, r.Fields[idx].StrValue...) }" := by rfl
+
+/-- the store-side time-range test (translated; `store_intersect_covers` is proved over it). -/
+theorem storeIntersect_expected : ∀ s e a b : Int, OG.C11.storeIntersect s e a b = (!(decide (s > b) || decide (e < a))) := by
+  intro s e a b; rfl
+
 theorem maxConditionTagGroups_expected : maxConditionTagGroups = 1024 := by rfl
 
 theorem generation_ok : generationFailed = false := by rfl
